@@ -38,14 +38,14 @@ CLAIMED = {
    "The real LoadBalanceConnector is built from generated YAML and driven through the real process_request: round robin sequentially (every window of n selections covers every member) and concurrently from 2-8 tasks on a 4-thread runtime (exact counts), hash-by stickiness against reference key evaluation over 10 key expressions, random coverage (400*n draws), non-member decoy never used, recorded connector == member that ran. 1 500 / 40 000 configurations. Concurrent round robin is stress on a real multi-thread runtime, not schedule enumeration.",
    "Trusted: reference key evaluation (C08 interpreter); recording members. The random law has a false-alarm probability below 1e-20 per case.",
    "proptest stateful sequences + multi-thread stress, oracle = counting / grouping invariants", "§3 C17"),
- "C01": ("vp-inproc", "exploration",
-   "Part (a) of the design, the buffered relay path under an owned schedule: 1 500 (quick) / 40 000 (thorough) generated cases of 1-3 concurrent tunnels through the real create_context, h11c_handshake, process_request, rules, h11c_connect and copy_bidi on one current-thread runtime, with payloads up to 1 MiB, early data on both sides, per-poll I/O schedules down to one byte, pipe capacities from 1 byte (back-pressure) and bufferSize from 1 to 65536; bytes at each far end must equal the bytes sent. The end-to-end pairing grid (splice, TLS, SOCKS/QUIC hops) is added with the e2e engine.",
+ "C01": ("both", "exploration",
+   "Part (a) of the design, the buffered relay path under an owned schedule: 1 500 (quick) / 40 000 (thorough) generated cases of 1-3 concurrent tunnels through the real create_context, h11c_handshake, process_request, rules, h11c_connect and copy_bidi on one current-thread runtime, with payloads up to 1 MiB, early data on both sides, per-poll I/O schedules down to one byte, pipe capacities from 1 byte (back-pressure) and bufferSize from 1 to 65536; bytes at each far end must equal the bytes sent. (b) end-to-end on real sockets: two real proxies (useSplice true / false) in front of a third; every listener {http, socks5, socks4, reverse} x upstream {direct, http->B, socks5->B, socks4->B, load-balanced} pairing once per I/O mode, directed 8-16 MiB back-pressure cases and 40 (quick) / 1 200 (thorough) generated schedules (early data, chunking, stalled readers, half-close / RST), each run against both I/O modes. TLS and QUIC hops are exercised by the C07 and C10 fixtures, not by this grid.",
    "Trusted: tokio's in-memory duplex and the Scripted wrapper as carriers; the harness peers are full-duplex; a virtual clock turns a wedge into a verdict, a non-blocking spin is caught by a 120 s wall-clock watchdog and reported as inconclusive (exit 2).",
-   "proptest over generated I/O schedules, oracle = byte-for-byte equality with keyed PRNG payloads", "§3 C01(a)"),
- "C04": ("vp-inproc", "exploration",
-   "Part (a): the same generated tunnel cases with eager / reactive half-closes on either side and injected read/write errors at generated offsets; each receiver must see EOF only after every byte, the opposite direction must still deliver everything, both write halves must be shut down and the context must end Terminated; after a fault both far ends must be released. The splice-vs-buffered differential on real sockets is added with the e2e engine.",
+   "proptest over generated I/O schedules (in-process) + enumerated pairing grid and generated schedules on real sockets, oracle = byte-for-byte equality with keyed PRNG payloads", "§3 C01"),
+ "C04": ("both", "exploration",
+   "Part (a): the same generated tunnel cases with eager / reactive half-closes on either side and injected read/write errors at generated offsets; each receiver must see EOF only after every byte, the opposite direction must still deliver everything, both write halves must be shut down and the context must end Terminated; after a fault both far ends must be released. (b) on real sockets, the same generated tunnel (FIN / close-after-peer-EOF / RST at a generated offset, data in flight, stalled consumers) is run against a useSplice=true and a useSplice=false proxy at the same time: EOF only after all bytes, both ends released within 8 s of both senders being done (a hang shows as a timeout at the 25-60 s budget), a clean close never becomes a reset, and identical observable summaries in both I/O modes.",
    "Trusted: as C01; 'promptly' is decided by the virtual clock (every task blocked = wedge), not by wall time.",
-   "proptest over close/fault schedules, oracle = history invariant on EOF ordering and terminal state", "§3 C04(a)"),
+   "proptest over close/fault schedules (in-process) + differential splice-on/off runs on real sockets, oracle = history invariant on EOF ordering and end kinds", "§3 C04"),
  "C06": ("vp-e2e", "fault_enumeration",
    "Enumerated grid against one real proxy process with fake upstream proxies: 6 client protocols x {direct reachable/refused, deny, no rule, unsupported feature, bad command, 10 HTTP-upstream reply scripts, 16 SOCKS5-upstream scripts, 6 SOCKS4-upstream scripts} x {waits, pipelines, half-closes}: 529 cases (quick, one pass) / 6 passes with fresh payload tags (thorough). The raw bytes the client receives are reference-parsed: success iff (and not before) the upstream granted, then an exact echo round trip; otherwise exactly one complete failure reply (HTTP body length == Content-Length) and EOF; no origin connection on refusal.",
    "Trusted: refcodec parsers; harness-side fake upstreams and origin; 15 s per-step I/O deadlines (a miss is reported as a missing reply).",
@@ -54,10 +54,10 @@ CLAIMED = {
    "Five real proxy instances with different timeouts sections, six tunnel kinds, five traffic patterns (56 cases quick, ~190 thorough, all cases of an instance in parallel): /api/live must show the configured idle_timeout for the tunnel kind; with T in 1..3 s the tunnel must be closed between T-0.1 s and T+2.5 s after the last byte and never during a trickle with period 0.6 T; with 0 or 600 it must still be open after 4 s.",
    "Trusted: wall clock of the sandbox; an upper-bound miss while the harness heartbeat detected a host stall (> 0.6 s) is counted inconclusive, lower bounds and the wiring check have no such dependence.",
    "generated traffic patterns against real processes, oracle = timing bounds + configuration wiring read from the API", "§3 C13"),
- "C16": ("vp-inproc", "exploration",
-   "Part (b): the generated in-process tunnel cases judged for accounting: lifecycle state log with exactly one terminal state (ErrorOccured + text after a fault), per-direction byte counters equal to the relayed payload including early data, recorded connector, live-table membership. The end-to-end histories (access log, /api/history, rotation) are added with the e2e engine.",
+ "C16": ("both", "exploration",
+   "Part (b): the generated in-process tunnel cases judged for accounting: lifecycle state log with exactly one terminal state (ErrorOccured + text after a fault), per-direction byte counters equal to the relayed payload including early data, recorded connector, live-table membership. (a) end-to-end: 16 (quick) / 400 (thorough) generated mixes of up to 39 connections of ten outcome kinds on a fresh real proxy (history size 0/1/3/50, splice on/off, log rotation at generated points, unique source ports): exactly one JSON access-log record per accepted connection across all files, lifecycle-conformant state log, truthful listener / target / connector / counters, /api/live membership, bounded newest-first /api/history.",
    "Trusted: the record is read from the collector list that Context::drop feeds (the same data the access log and /api/history receive).",
-   "proptest over tunnel histories, oracle = lifecycle regular expression + counter equality", "§3 C16(b)"),
+   "proptest over tunnel histories (in-process) + generated connection mixes against real processes, oracle = exactly-once accounting, lifecycle regular expression, counter equality", "§3 C16"),
  "C14": ("vp-e2e", "fault_enumeration",
    "Generated stall schedules, each on a fresh real proxy (40 quick / 600 thorough): clients stalled after k bytes of a valid HTTP / SOCKS5 / SOCKS4 / SOCKS5+userpass handshake (k over every offset), tunnels blocked on a consumer that never reads, then API calls (status, live, history, rules GET/POST, metrics, logrotate) issued concurrently with fresh echo tunnels through every listener; everything must complete within 6 s (control phase < 1.5 s, else inconclusive). The hazard is a persistent state (a lock held while a client is silent), so once the stall set is installed a blocking defect shows deterministically.",
    "Trusted: wall-clock bound of 6 s against a control of milliseconds; stalls inside the TLS or QUIC handshake are not generated.",
@@ -70,6 +70,10 @@ CLAIMED = {
    "Part (a): 4 000 (quick) / 300 000 (thorough) configuration documents obtained from three bases by tree mutations (delete / retype / duplicate / randomise / rename, targeted path and address replacement), generated load-balancer member graphs and generated scripts as filter / hashBy / log format are run through main()'s loading sequence on the real functions; the result must be Ok or an error with a message within 30 s, never a panic. The real-binary parts (--test vs start-up differential, POST /api/rules with arbitrary JSON, nesting ladder, cyclic load balancers under traffic) are added with the e2e engine.",
    "Trusted: the re-enactment of main() in the harness (kept line-for-line); access-log paths are redirected into the scratch directory.",
    "proptest structural mutation fuzzing of configuration trees, oracle = Ok/Err, no panic", "§3 C18(a)"),
+ "C10": ("vp-e2e", "exploration",
+   "Two real proxies (A in front of B): all 3 x 5 UDP listener x upstream pairings (SOCKS5 UDP ASSOCIATE with enforceUdpClient off/on, reverse-UDP, HTTP CONNECT with inline RPFM frames) x (direct, socks5->B, http->B, QUIC datagrams->B, QUIC inline->B) once each, then 30 (quick) / 1 500 (thorough) generated cases of 1-5 interleaved sessions sending datagrams of 0..65000 bytes to three tagging echo origins, incl. clients that vanish while a reply is in flight; every datagram must reach the addressed origin exactly once unmodified (also the first of a session and multi-fragment ones), every reply must return to the owning client labelled with the replying origin, and no origin may receive a datagram nobody sent.",
+   "Trusted: loopback does not lose or reorder datagrams at the pacing used (one outstanding datagram per session); refcodec for the SOCKS5-UDP header and RPFM frames. TPROXY UDP is not set up. In this sandbox an ICMP port-unreachable is not delivered to the proxy's connected session socket, so the receive-error path of UdpFrameReader is not reachable.",
+   "stateful generated sessions against real processes, oracle = multiset equality of datagrams per origin + reply labelling", "§3 C10"),
 }
 
 NOT_YET = "check not built yet in this session (see DESIGN.md §6 build order); will be claimed once its generator and oracle exist"
